@@ -863,6 +863,10 @@ if OS_IS_UNIX:
             _process_run_wrapper
         )
 
+        # A subprocess (started with the "spawn" or "forkserver" method) may load this
+        # module only after its `run()` method has been called.
+        _adopt_process_locks(current_process())
+
         # Shouldn't be needed since we're getting our own separate file descriptors
         # but the validity of the assumed safety is still under probation
         """
